@@ -41,6 +41,10 @@ type wPod struct {
 	Terminal, Tol, Static bool
 	Del                   *int64
 	PVs                   []int64
+	// spec.terminationGracePeriodSeconds. Harness-only: it decides whether Drain puts a waiting pod into the
+	// force-delete batch or the graceful one, which must not change whether Drain reports the node as drained
+	// (the model's drain_done ignores it), so it is not part of the Gallina pod.
+	Grace *int64
 }
 
 type wVA struct {
@@ -280,6 +284,7 @@ func mkPod(p *wPod) *corev1.Pod {
 	if p.Terminal {
 		o.Status.Phase = corev1.PodSucceeded
 	}
+	o.Spec.TerminationGracePeriodSeconds = p.Grace
 	if p.Tol {
 		o.Spec.Tolerations = []corev1.Toleration{{Key: v1.DisruptedTaintKey, Operator: corev1.TolerationOpExists, Effect: corev1.TaintEffectNoSchedule}}
 	}
